@@ -43,8 +43,8 @@ def cases(tier, seed):
     for n in range(1, N + 1):
         box = BOXES[n % len(BOXES)]
         out.append(dict(kind="ode", n=n, b=1, box=box, method="grid", seed=sd + n, draws=1))
-        if not quick or n % 2:
-            out.append(dict(kind="statio", dim=1, n=n, b=1, nb=2, bb=2, box=BOXES[(n + 1) % 4], method="grid", seed=sd + n, draws=1))
+        for bx in (BOXES if (not quick or n >= 32) else ([BOXES[(n + 1) % 4]] if n % 2 else [])):
+            out.append(dict(kind="statio", dim=1, n=n, b=1, nb=2, bb=2, box=bx, method="grid", seed=sd + n, draws=1))
         # the time grid: float spacing, every interval for every count (a count error may need a particular (tmin, tmax, nt))
         for tb in (BOXES if (not quick or n >= 32) else [BOXES[(n + 1) % 4]]):
             out.append(dict(kind="nonstatio", dim=1, n=3, b=1, nb=None, bb=None, nt=n, bt=1, box=box, tbox=tb,
